@@ -163,6 +163,9 @@ func runC01(c *Check) {
 		return n == "(*profile.Profile).postDecode" || n == "(*profile.Profile).preEncode"
 	}, false, c02GuardExceptions)
 	c.subMessageOmission()
+	c.internBeforeFreeze()
+	c.repeatedMessageAlwaysFramed()
+	c.serializerMapOrder()
 }
 
 // scratchAssignedOnEveryPath (R7): the scratch fields survive between serializations, so
